@@ -54,6 +54,13 @@ namespace verif
 
   double eval(const Value &v);
 
+  // variables of terms: {"op":"var","name":n}; bound by "let"/"rowlet" of a step (generic, no domain knowledge)
+  inline std::map<std::string, double> &env()
+  {
+    static std::map<std::string, double> e;
+    return e;
+  }
+
   inline double eval_list_fold(const Value &l, const std::string &op)
   {
     if (!l.IsArray() || l.Size() == 0) throw HarnessError("term: empty list for " + op);
@@ -88,6 +95,12 @@ namespace verif
     const std::string op = v["op"].GetString();
     auto A = [&]() { return eval(v["a"]); };
     auto B = [&]() { return eval(v["b"]); };
+    if (op == "var")
+      {
+        auto it = env().find(v["name"].GetString());
+        if (it == env().end()) throw HarnessError(std::string("term: unbound variable ") + v["name"].GetString());
+        return it->second;
+      }
     if (op == "num") return A();
     if (op == "add") return A() + B();
     if (op == "sub") return A() - B();
